@@ -45,6 +45,9 @@ pub enum Op {
     RecreateDeferred,
     /// every handle-taking access through the stale handle of layout position `e`
     StaleAccess(u8),
+    /// vacant-entry insertion at a raw index beyond the bit set's range: the mask update unwinds
+    /// after the value went into the inner storage, which must take it back out
+    HugeEntry,
     Clear,
     /// non-lending mutable join (lending for kinds without it); writes the
     /// items whose position bit is set in the mask.
@@ -68,6 +71,8 @@ pub enum Op {
     BuilderWith,
     // change tracking
     Emission(bool),
+    /// a second reader subscribes late (must not change what is emitted)
+    SecondReader,
     // second storage (C19 follow-ups use it; also lets deletions purge two storages)
     InsertOther(u8),
 }
@@ -92,6 +97,8 @@ pub struct Cfg {
     pub layout: Vec<u32>,
     pub max_depth: usize,
     pub max_lazy: usize,
+    /// the late-subscriber operation is part of the alphabet
+    pub late_reader: bool,
     pub perturb: bool,
     /// pre-rendered replay JSON up to the operation list (crash guard)
     pub note_prefix: String,
@@ -126,6 +133,8 @@ struct Run<'c, T: Kind, U: Kind> {
     /// membership replayed from Inserted/Removed events since registration
     replayed: std::collections::BTreeSet<u32>,
     builder_used: bool,
+    huge_used: bool,
+    second_reader: Option<specs::shrev::ReaderId<ComponentEvent>>,
     stale: Vec<Option<Entity>>,
     viol: Option<String>,
     tr: u64,
@@ -184,6 +193,8 @@ impl<'c, T: Kind, U: Kind> Run<'c, T, U> {
             emission_always_on: true,
             replayed: Default::default(),
             builder_used: false,
+            huge_used: false,
+            second_reader: None,
             stale: vec![None; n],
             viol: None,
             tr: 0,
@@ -591,6 +602,28 @@ impl<'c, T: Kind, U: Kind> Run<'c, T, U> {
                 }
                 // nothing accessed, nothing changed: no event of any kind (exp is empty)
             }
+            Op::HugeEntry => {
+                // only where an index of 2^24 costs nothing (the vector kinds would allocate and
+                // later walk sixteen million slots per execution)
+                if self.huge_used || !T::ZST {
+                    return None;
+                }
+                self.huge_used = true;
+                const HUGE: u32 = (1 << 24) + 5;
+                let v = self.fresh();
+                let w = &self.w;
+                let r = catch(|| {
+                    let mut st = w.write_storage::<T>();
+                    let _ = st.entry_inner(HUGE).or_insert(T::make(v)).observe();
+                });
+                if r.is_ok() {
+                    // the bit set accepted the index after all: take the component out again
+                    let mut st = self.w.write_storage::<T>();
+                    if let StorageEntry::Occupied(o) = st.entry_inner(HUGE) {
+                        o.remove().returned();
+                    }
+                }
+            }
             Op::Clear => {
                 self.w.write_storage::<T>().clear();
                 self.model.clear();
@@ -813,6 +846,13 @@ impl<'c, T: Kind, U: Kind> Run<'c, T, U> {
                 exp.insrem.push(ComponentEvent::Inserted(h.id()));
                 exp.modified.insert(h.id(), M::May);
             }
+            Op::SecondReader => {
+                if T::TRACK == Track::None || self.second_reader.is_some() {
+                    return None;
+                }
+                let mut st = self.w.write_storage::<T>();
+                self.second_reader = T::register_reader(&mut st);
+            }
             Op::Emission(on) => {
                 if T::TRACK == Track::None || *on == self.emission {
                     return None;
@@ -1014,6 +1054,8 @@ impl<'c, T: Kind, U: Kind> Run<'c, T, U> {
         self.emission.hash(&mut h);
         self.emission_always_on.hash(&mut h);
         self.builder_used.hash(&mut h);
+        self.huge_used.hash(&mut h);
+        self.second_reader.is_some().hash(&mut h);
         self.stale.iter().map(|s| s.map(|e| (e.id(), e.gen().id()))).collect::<Vec<_>>().hash(&mut h);
         self.replayed.hash(&mut h);
         drop(st);
@@ -1113,10 +1155,16 @@ impl<'c, T: Kind, U: Kind> Run<'c, T, U> {
         if p == Prop::C12 || p == Prop::C20 {
             v.push(Op::Emission(!self.emission));
             v.push(Op::Maintain);
+            if self.cfg.late_reader && self.second_reader.is_none() && !self.emission {
+                v.push(Op::SecondReader);
+            }
         }
         if p == Prop::C08 || p == Prop::C19 {
             v.push(Op::Maintain);
             v.push(Op::BuilderWith);
+        }
+        if p == Prop::C08 && !self.huge_used && T::ZST {
+            v.push(Op::HugeEntry);
         }
         if p == Prop::C19 {
             for a in 0..n {
@@ -1126,7 +1174,7 @@ impl<'c, T: Kind, U: Kind> Run<'c, T, U> {
             }
         }
         v.retain(|op| match op {
-            Op::Emission(_) => T::TRACK != Track::None,
+            Op::Emission(_) | Op::SecondReader => T::TRACK != Track::None,
             Op::MaybeJoinMut => T::HAS_JOIN_MUT,
             Op::BuilderWith => !self.builder_used,
             Op::LazyInsert(_) => self.lazy.len() < self.cfg.max_lazy,
@@ -1721,7 +1769,7 @@ pub fn plan(prop: Prop, thorough: bool) -> Vec<(usize, Cfg)> {
                 Prop::C20 => 3,
                 _ => 16,
             };
-            out.push((ki, Cfg { prop, layout: layout.clone(), max_depth: depth, max_lazy: if thorough { 2 } else { 1 }, perturb: false, note_prefix: format!("{{\"engine\":\"mc-store\",\"property\":\"{:?}\",\"kind\":\"{}\",\"layout\":{:?},\"oracle\":\"process crash inside a specs operation\",\"ops\":", prop, k.name, layout) }));
+            out.push((ki, Cfg { prop, layout: layout.clone(), max_depth: depth, max_lazy: if thorough { 2 } else { 1 }, late_reader: thorough || ["FVec", "DDense"].contains(&k.name), perturb: false, note_prefix: format!("{{\"engine\":\"mc-store\",\"property\":\"{:?}\",\"kind\":\"{}\",\"layout\":{:?},\"oracle\":\"process crash inside a specs operation\",\"ops\":", prop, k.name, layout) }));
         }
     }
     out
@@ -1850,7 +1898,7 @@ fn replay(cli: &Cli, path: &std::path::Path) -> ! {
     let k = kinds.iter().find(|k| k.name == kname).unwrap_or_else(|| machinery_error("replay: unknown kind"));
     let layout: Vec<u32> = serde_json::from_value(v["layout"].clone()).unwrap_or_else(|_| machinery_error("replay: bad layout"));
     let ops: Vec<Op> = serde_json::from_value(v["ops"].clone()).unwrap_or_else(|e| machinery_error(&format!("bad ops: {e}")));
-    let cfg = Cfg { prop, layout: layout.clone(), max_depth: ops.len(), max_lazy: 2, perturb: false, note_prefix: format!("{{\"engine\":\"mc-store\",\"property\":\"{:?}\",\"kind\":\"{}\",\"layout\":{:?},\"oracle\":\"process crash inside a specs operation\",\"ops\":", prop, kname, layout) };
+    let cfg = Cfg { prop, layout: layout.clone(), max_depth: ops.len(), max_lazy: 2, late_reader: true, perturb: false, note_prefix: format!("{{\"engine\":\"mc-store\",\"property\":\"{:?}\",\"kind\":\"{}\",\"layout\":{:?},\"oracle\":\"process crash inside a specs operation\",\"ops\":", prop, kname, layout) };
     let o1 = (k.run)(&cfg, &ops);
     let mut c2 = cfg.clone();
     c2.perturb = true;
